@@ -703,6 +703,10 @@ impl Report {
         t0: Instant,
     ) {
         let nt = stats.nontrivial.len() as u64;
+        // several shards may fail with the same root cause: keep one record per signature (the smallest case)
+        let mut viol = viol;
+        viol.sort_by_key(|v| (v.sig.clone(), v.case.to_string().len()));
+        viol.dedup_by(|a, b| a.sig == b.sig);
         self.sections.push(json!({
             "section": section,
             "how": how,
